@@ -326,6 +326,34 @@ def cursorStep (c : Nat) : SimOp → Nat
 /-- number of `bufferData` calls since the last reset (or since construction) -/
 def bufCount (ops : List SimOp) : Nat := ops.foldl cursorStep 0
 
+/-! ### Specification of the serving protocol ("served in order, restarting on reset")
+
+The abstract machine knows nothing of the stored trajectory: it counts.  `served` is the number of
+states handed out since the last reset, `last` the index of the state `getData` shows (the last one
+handed out — a reset does not clear it). -/
+structure SimSpec where
+  served : Nat
+  last : Option Nat
+  deriving DecidableEq, Repr
+
+def SimSpec.step (L : Nat) (a : SimSpec) : SimOp → SimSpec × SimOut Nat
+  | .buffer => if a.served < L then ({ served := a.served + 1, last := some a.served }, .flag true) else (a, .flag false)
+  | .get => (a, .data a.last)
+  | .reset => ({ a with served := 0 }, .flag true)
+  | .other => (a, .flag false)
+
+def SimSpec.run (L : Nat) (a : SimSpec) : List SimOp → SimSpec × List (SimOut Nat)
+  | [] => (a, [])
+  | op :: ops =>
+    let (a1, o) := a.step L op
+    let (a2, os) := SimSpec.run L a1 ops
+    (a2, o :: os)
+
+/-- an answer of the specification (an index) read as an answer of the object (the state with that index) -/
+def SimOut.mapIdx {σ : Type} (traj : Nat → σ) : SimOut Nat → SimOut σ
+  | .flag b => .flag b
+  | .data d => .data (d.map traj)
+
 /-! ## Simulated linear sensor -/
 
 section sensor
@@ -360,6 +388,63 @@ def sensorFreezeN {n m : Nat} (H : Mat α m n) (SR : Mat α m m) (s : Sensor α 
 
 /-- `measure()`: always valid; returns `measurement_`. -/
 def sensorMeasure {n m : Nat} (s : Sensor α n m) : Bool × Option (Vec α m) := (true, s.meas)
+
+/-- The calls a user can make on a `SimulatedLinearSensor` and on the trajectory it wraps. -/
+inductive SensorOp where
+  | freeze          -- sensor.freeze()
+  | measure         -- sensor.measure()
+  | reset           -- trajectory.setProperty("reset")
+  | buffer          -- trajectory.bufferData() called directly (a state is consumed without a measurement)
+  deriving DecidableEq, Repr
+
+inductive SensorOut (β : Type) where
+  | flag (b : Bool)
+  | meas (ok : Bool) (y : Option β)
+
+/-- one call on the sensor object -/
+def Sensor.step {n m : Nat} (H : Mat α m n) (SR : Mat α m m) (s : Sensor α n m) : SensorOp → Sensor α n m × SensorOut (Vec α m)
+  | .freeze => let r := sensorFreeze H SR s; (r.1, .flag r.2)
+  | .measure => (s, .meas (sensorMeasure s).1 (sensorMeasure s).2)
+  | .reset => ({ s with sim := (s.sim.step .reset).1 }, .flag true)
+  | .buffer =>
+    let r := s.sim.step .buffer
+    ({ s with sim := r.1 }, .flag (match r.2 with | .flag b => b | .data _ => false))
+
+/-- a finite sequence of calls -/
+def Sensor.run {n m : Nat} (H : Mat α m n) (SR : Mat α m m) (s : Sensor α n m) : List SensorOp → Sensor α n m × List (SensorOut (Vec α m))
+  | [] => (s, [])
+  | op :: ops =>
+    let r1 := s.step H SR op
+    let r2 := Sensor.run H SR r1.1 ops
+    (r2.1, r1.2 :: r2.2)
+
+/-- Specification of the sensor: it counts.  `served` states handed out since the last reset, `draws`
+    noise vectors drawn so far, and the stored measurement described by (index of the state it was
+    taken of, number of the noise vector added). -/
+structure SensorSpec where
+  served : Nat
+  draws : Nat
+  meas : Option (Nat × Nat)
+  deriving DecidableEq, Repr
+
+def SensorSpec.step (L : Nat) (a : SensorSpec) : SensorOp → SensorSpec × SensorOut (Nat × Nat)
+  | .freeze =>
+    if a.served < L then ({ served := a.served + 1, draws := a.draws + 1, meas := some (a.served, a.draws) }, .flag true)
+    else (a, .flag false)
+  | .measure => (a, .meas true a.meas)
+  | .reset => ({ a with served := 0 }, .flag true)
+  | .buffer => if a.served < L then ({ a with served := a.served + 1 }, .flag true) else (a, .flag false)
+
+def SensorSpec.run (L : Nat) (a : SensorSpec) : List SensorOp → SensorSpec × List (SensorOut (Nat × Nat))
+  | [] => (a, [])
+  | op :: ops =>
+    let r1 := a.step L op
+    let r2 := SensorSpec.run L r1.1 ops
+    (r2.1, r1.2 :: r2.2)
+
+def SensorOut.mapVal {β γ : Type} (f : β → γ) : SensorOut β → SensorOut γ
+  | .flag b => .flag b
+  | .meas ok y => .meas ok (y.map f)
 
 /-- constructor: input description = state description + `R.rows()` noise components;
     measurement description counts the rows whose selected component lies in the linear part. -/
